@@ -137,6 +137,11 @@ fn run_wakeups(c: &SchedCase) -> ExecOutcome {
             // at its state before ending the run.
             if !cfg!(miri) {
                 std::thread::sleep(Duration::from_millis(60));
+            } else {
+                // (the interpreter has no clock worth waiting for: give the loop thread its turns)
+                for _ in 0..400 {
+                    std::thread::yield_now();
+                }
             }
             let parked = loop_parked_quick(loop_tid, epfd);
             hookrec::record(H_QUIESCE, parked as u64, 0);
